@@ -109,7 +109,7 @@ def instances_for(ctx, layouts):
     for b, t in lts:
         if b <= 3 or not ctx.quick:
             inst.append(("bucketheader", {"b": b, "t": t}))
-    for z in (ctx.pick([0, 1, 15, 29], list(range(0, 30)))):
+    for z in (ctx.pick([0, 29], list(range(0, 30)))):
         inst.append(("tile", {"z": z}))
     for n in (5, 6, 7):
         inst.append(("postcode", {"n": n}))
